@@ -132,6 +132,11 @@ func main() {
 	for _, r := range run {
 		pkgSet[r.PkgRel] = true
 	}
+	for rel := range files {
+		if strings.HasPrefix(rel, "pkg/internal/") {
+			pkgSet[rel] = true // shared generator packages are always part of the overlay
+		}
+	}
 	var patterns []string
 	for rel := range pkgSet {
 		patterns = append(patterns, "./"+rel)
@@ -178,13 +183,18 @@ func main() {
 		results = append(results, hr)
 		fmt.Fprintf(os.Stderr, "[%s] %s: %d paths (%d killed, %d panics), %d queries, solver %.1fs, wall %.1fs, asserts %d/%d, violations %d, errors %d\n",
 			*prop, r.Func, hr.Paths, hr.Killed, hr.Panics, hr.Queries, hr.SolverTime.Seconds(), hr.Wall.Seconds(), hr.AssertsDis, hr.AssertsChk, len(hr.Violations), len(hr.Errors))
-		for i, e := range hr.Errors {
-			if i < 5 {
-				problems = append(problems, r.Func+": engine error: "+e)
+		errKinds := map[string]int{}
+		errSample := map[string]string{}
+		for _, e := range hr.Errors {
+			k := e
+			if i := strings.Index(k, " @ "); i >= 0 {
+				k = k[:i]
 			}
+			errKinds[k]++
+			errSample[k] = e
 		}
-		if len(hr.Errors) > 5 {
-			problems = append(problems, fmt.Sprintf("%s: ... %d more engine errors", r.Func, len(hr.Errors)-5))
+		for k, n := range errKinds {
+			problems = append(problems, fmt.Sprintf("%s: engine error (x%d): %s", r.Func, n, errSample[k]))
 		}
 		for i, e := range hr.Inconclusive {
 			if i < 5 {
